@@ -16,8 +16,10 @@ import KyupyVerif.Model.CircObjSub
 * `st:<spec>`                  `c = Circuit.__setstate__(spec)` (start from a given circuit)
 For these four the record starts with `1` or `0<reason>` (`n` node index out of range, `k` kinds, `s` self loop, `g` a pin
 assignment overwrites a line, `f` fork outputs of the result have a gap, `p` a substitution of `resolve` is not a
-well-formed use; `1d` = `substPre` holds but the structural condition `substStatic` does not; `0X` = `substStatic` holds
-and a pin guard fails, which theorem `substStatic_pre0` excludes); the operation is applied also when the precondition is false; `<pre>;raise` = the model says the real
+well-formed use; `1` = also the structural conditions `substStatic` and `substRegular` (`resolveStatic`) hold, `1r` =
+`substStatic` holds but not `substRegular` (gap-freeness of the forks was evaluated on the result), `1d` = `substPre`
+holds but `substStatic` does not; `0X` = `substStatic` holds and a pin guard fails, `0Y` = the structural conditions
+hold and the result has a fork gap — both excluded by theorems `substStatic_pre0`, `substStatic_pre`); the operation is applied also when the precondition is false; `<pre>;raise` = the model says the real
 code raises (state unchanged).
 
 Answer: one record per operation, separated by ` # `:
@@ -116,8 +118,12 @@ def parseTok (s : String) : Option Tok :=
 
 def substReason (c : Circ) (i : Nat) (m : Circ) : String :=
   if !(c.nodes.contains i) then "0n" else if !(substKinds c i m) then "0k" else if !(noSelfLoop c i) then "0s"
-  else if !(substGuards c i m) then (if substStatic c i m then "0X" else "0g") else if !(substPre c i m) then "0f"
-  else if substStatic c i m then "1" else "1d"
+  else
+    let st := substStatic c i m
+    let rg := substRegular c i m
+    if !(substGuards c i m) then (if st then "0X" else "0g")
+    else if !(substPre c i m) then (if st && rg then "0Y" else "0f")
+    else if st && rg then "1" else if st then "1r" else "1d"
 
 def preStr (c : Circ) : Op2 → String
   | .base op => if pre c op then "1" else "0"
@@ -125,7 +131,7 @@ def preStr (c : Circ) : Op2 → String
     | some i => substReason c i m
     | none => "0n"
   | .removeDangling ni => if ni < c.nodes.length then "1" else "0n"
-  | .resolve lib => if resolvePre lib c then "1" else "0p"
+  | .resolve lib => if resolvePre lib c then (if resolveStatic lib c then "1" else "1r") else (if resolveStatic lib c then "0Y" else "0p")
 
 def replay (ops : List String) : List String :=
   let rec go (c : Circ) : List String → List String
